@@ -57,6 +57,13 @@ pub struct GenWorld {
     pub text: String,
     /// plain (kebab) names of the world's function / inline-interface imports and exports
     pub names: Vec<String>,
+    /// local names of the world-level `use`d types (any kind)
+    pub used_types: Vec<String>,
+    /// names of the value types the world declares itself (a resource *declared* by a world is
+    /// identified by its name there and is not renamed by the generated `include … with`)
+    pub decl_types: Vec<String>,
+    /// resources the world declares itself that have a constructor, method or static function
+    pub decl_res_funcs: Vec<String>,
 }
 
 pub struct GenPkg {
@@ -102,11 +109,13 @@ pub struct Gen<'a> {
     pub cfg: GenCfg,
     pub features: Vec<&'static str>,
     uniq: usize,
+    /// names of the resources declared (by `decls`) with at least one function, since last taken
+    res_with_funcs: Vec<String>,
 }
 
 impl<'a> Gen<'a> {
     pub fn new(r: &'a mut Rng, cfg: GenCfg) -> Self {
-        Gen { r, cfg, features: vec![], uniq: 0 }
+        Gen { r, cfg, features: vec![], uniq: 0, res_with_funcs: vec![] }
     }
 
     fn feat(&mut self, f: &'static str) {
@@ -307,6 +316,9 @@ impl<'a> Gen<'a> {
                             let sig = sig.trim_start_matches("async ").to_string();
                             body.push_str(&format!("{ind}  {m}: {st}{sig};\n"));
                         }
+                        if !body.is_empty() {
+                            self.res_with_funcs.push(name.clone());
+                        }
                         out.push_str(&format!("{ind}resource {name} {{\n{body}{ind}}}\n"));
                     }
                 }
@@ -360,6 +372,143 @@ impl<'a> Gen<'a> {
         }
     }
 
+    /// The plain name of a function / inline-interface item of a world: fresh, or (1 in 5) a name
+    /// the world already uses in the *other* direction -- imports and exports are separate name
+    /// spaces, `import a: func(); export a: func();` is one name on both sides (and an
+    /// `include … with { a as b }` renames both).
+    fn item_name(&mut self, prefix: &str, dir: &str, imps: &mut Vec<String>, exps: &mut Vec<String>, names: &mut Vec<String>) -> String {
+        let (same, other) = if dir == "import" { (imps, exps) } else { (exps, imps) };
+        let reuse: Vec<String> = other.iter().filter(|n| !same.contains(n)).cloned().collect();
+        let f = if !reuse.is_empty() && self.r.chance(1, 5) {
+            self.feat("world:same-name-imported-and-exported");
+            reuse[self.r.below(reuse.len())].clone()
+        } else {
+            let f = self.fresh(prefix);
+            names.push(f.clone());
+            f
+        };
+        same.push(f.clone());
+        f
+    }
+
+    /// The renames of an `include … with { … }` over the plain names of the included world `w0`
+    /// (its functions / inline interfaces, its world-level `use`d types, the value types it
+    /// declares): independent renames to fresh names; chains `a as b, b as c, c as fresh`; cycles
+    /// `a as b, b as a` (a swap) and longer ones; a cycle next to a chain.  Every included item is
+    /// renamed at most once, by the entry whose source is its own name, so the targets inside a
+    /// chain or cycle are names of *other* included items.  Returned in shuffled order.
+    ///
+    /// Two shapes are known findings of the unchanged tree (notes/C05.md); they are drawn at a low
+    /// rate and the including world is then named with the returned tag, on which the entries of
+    /// known_findings.d/decode.json match:
+    /// * `wldnameclash`: a world-level *type* is renamed onto a name that an interface binds (by
+    ///   declaration or `use`; `iface_names`) — the encoder keeps the aliases of an instance type in
+    ///   the enclosing scope by name (`dec-instance-alias-name-leak`, no `include` needed);
+    /// * `wldresfuncs`: a resource *declared by the included world* with constructor / methods is
+    ///   renamed; its `[constructor]r` / `[method]r.m` names are not (`dec-include-rename-resource-functions`).
+    /// Otherwise a type is never renamed onto an interface-bound name and world-declared resources
+    /// keep their names.
+    fn include_renames(&mut self, w0: &GenWorld, iface_names: &[String]) -> (Vec<(String, String)>, Option<&'static str>) {
+        let (items, used, decl) = (&w0.names, &w0.used_types, &w0.decl_types);
+        let is_type = |n: &String| used.contains(n) || decl.contains(n);
+        let clashes = |plan: &[(String, String)]| plan.iter().any(|(a, b)| is_type(a) && iface_names.contains(b));
+        let shape = self.r.below(14);
+        let allow_clash = shape <= 1;
+        let mode = self.r.below(5);
+        let mut groups: Vec<bool> = vec![]; // true = cycle
+        match mode {
+            0 | 1 => {}
+            2 => groups.push(false),
+            3 => groups.push(true),
+            _ => {
+                groups.push(true);
+                groups.push(false);
+            }
+        }
+        // candidates of the chains and cycles
+        let with_used = allow_clash || self.r.chance(1, 2);
+        let with_decl = allow_clash || !with_used;
+        let mut accepted: Option<(Vec<(String, String)>, Vec<Vec<String>>, Vec<String>)> = None;
+        for attempt in 0..12 {
+            let mut cands: Vec<String> = items.clone();
+            // after a few rejected draws: without the used types (nothing can clash then)
+            if with_used && (attempt < 8 || allow_clash) {
+                cands.extend(used.iter().cloned());
+            }
+            if with_decl {
+                cands.extend(decl.iter().cloned());
+            }
+            self.r.shuffle(&mut cands);
+            let mut plan: Vec<(String, String)> = vec![];
+            let mut drawn: Vec<Vec<String>> = vec![];
+            for cycle in &groups {
+                if cands.len() < 2 {
+                    break;
+                }
+                let k = 2 + self.r.below((cands.len() - 1).min(3));
+                let group: Vec<String> = cands.drain(..k).collect();
+                for i in 0..k - 1 {
+                    plan.push((group[i].clone(), group[i + 1].clone()));
+                }
+                if *cycle {
+                    plan.push((group[k - 1].clone(), group[0].clone()));
+                }
+                drawn.push(group);
+            }
+            if allow_clash || !clashes(&plan) {
+                accepted = Some((plan, drawn, cands));
+                break;
+            }
+        }
+        let (mut plan, drawn, left) = accepted.unwrap_or_default();
+        let mut tag = None;
+        if clashes(&plan) {
+            self.feat("include:KNOWN-type-onto-interface-name");
+            tag = Some("wldnameclash");
+        }
+        for (group, cycle) in drawn.iter().zip(groups.iter()) {
+            let k = group.len();
+            if *cycle {
+                self.feat(if k == 2 { "include:swap" } else { "include:cycle" });
+            } else {
+                self.feat("include:chain");
+                let to = self.fresh("inc");
+                plan.push((group[k - 1].clone(), to));
+            }
+            if group.iter().any(|n| is_type(n)) {
+                self.feat("include:chain/cycle-over-types");
+            }
+        }
+        // the other names: independent renames to fresh names
+        let mut rest: Vec<String> = left;
+        for n in used.iter().chain(decl.iter()).chain(items.iter()) {
+            if !rest.contains(n) && !plan.iter().any(|(a, _)| a == n) {
+                rest.push(n.clone());
+            }
+        }
+        for n in rest {
+            if self.r.chance(if mode == 0 { 1 } else { 2 }, 4) {
+                let to = self.fresh("inc");
+                plan.push((n, to));
+            }
+        }
+        if shape == 2 && tag.is_none() && !w0.decl_res_funcs.is_empty() {
+            let n = w0.decl_res_funcs[self.r.below(w0.decl_res_funcs.len())].clone();
+            let to = self.fresh("inc");
+            plan.push((n, to));
+            self.feat("include:KNOWN-renames-resource-with-functions");
+            tag = Some("wldresfuncs");
+        }
+        if plan.iter().any(|(a, _)| used.contains(a)) {
+            self.feat("include:renames-used-type");
+        }
+        if plan.iter().any(|(a, _)| decl.contains(a)) {
+            self.feat("include:renames-declared-type");
+        }
+        self.r.shuffle(&mut plan);
+        (plan, tag)
+    }
+
     pub fn iface_body(&mut self, sources: &[(String, Scope)], ind: &str, sc: &mut Scope, out: &mut String) {
         self.uses(sc, ind, sources, out, 2);
         let nt = self.r.below(self.cfg.max_types + 1);
@@ -392,29 +541,32 @@ impl<'a> Gen<'a> {
         }
         let nw = 1 + self.r.below(2);
         for wi in 0..nw {
-            let wname = self.fresh("wld");
+            let mut wprefix = "wld";
             let mut body = String::new();
             let mut sc = Scope::default();
             let mut names: Vec<String> = vec![];
+            let mut used_types: Vec<String> = vec![];
+            let mut decl_types: Vec<String> = vec![];
             // include of an earlier world of this package, optionally renaming some of its items
             if wi > 0 && self.r.chance(2, 3) {
                 self.feat("world:include");
                 let prev = pkg.worlds[0].name.clone();
-                let prev_names = pkg.worlds[0].names.clone();
-                let mut withs = vec![];
-                for n in &prev_names {
-                    if self.r.chance(1, 2) {
-                        let to = self.fresh("inc");
-                        withs.push(format!("{n} as {to}"));
-                        names.push(to);
-                    } else {
-                        names.push(n.clone());
-                    }
+                let iface_names: Vec<String> = sources.iter().flat_map(|(_, sc)| sc.tys.iter().map(|t| t.0.clone())).collect();
+                let (withs, tag) = self.include_renames(&pkg.worlds[0], &iface_names);
+                if let Some(t) = tag {
+                    wprefix = t;
+                }
+                for n in &pkg.worlds[0].names {
+                    names.push(withs.iter().find(|w| &w.0 == n).map(|w| w.1.clone()).unwrap_or_else(|| n.clone()));
                 }
                 if withs.is_empty() {
                     body.push_str(&format!("  include {prev};\n"));
                 } else {
                     self.feat("world:include-with");
+                    if withs.len() >= 2 {
+                        self.feat("world:include-with-2+");
+                    }
+                    let withs: Vec<String> = withs.iter().map(|(a, b)| format!("{a} as {b}")).collect();
                     // WIT has no `;` after the `with` list, WAC requires one: `/*;*/` is a comment
                     // for WIT and is replaced by `;` for WAC
                     body.push_str(&format!("  include {prev} with {{ {} }}/*;*/\n", withs.join(", ")));
@@ -422,12 +574,22 @@ impl<'a> Gen<'a> {
             }
             {
                 self.uses(&mut sc, "  ", &sources, &mut body, 2);
+                let n_used = sc.tys.len();
                 let nt = self.r.below(3);
                 let mut fns = vec![];
+                self.res_with_funcs.clear();
                 self.decls(&mut sc, "  ", nt, 0, &mut body, &mut fns);
+                for (i, (tn, tk)) in sc.tys.iter().enumerate() {
+                    if i < n_used {
+                        used_types.push(tn.clone());
+                    } else if *tk == TK::Val {
+                        decl_types.push(tn.clone());
+                    }
+                }
                 let n_items = 1 + self.r.below(5);
                 let mut imported_ifaces: Vec<String> = vec![];
                 let mut exported_ifaces: Vec<String> = vec![];
+                let (mut imp_names, mut exp_names): (Vec<String>, Vec<String>) = (vec![], vec![]);
                 for _ in 0..n_items {
                     let dir = if self.r.chance(1, 2) { "import" } else { "export" };
                     match self.r.below(4) {
@@ -443,15 +605,13 @@ impl<'a> Gen<'a> {
                             body.push_str(&format!("  {dir} {path};\n"));
                         }
                         2 => {
-                            let f = self.fresh("wf");
-                            names.push(f.clone());
+                            let f = self.item_name("wf", dir, &mut imp_names, &mut exp_names, &mut names);
                             self.feat(if dir == "import" { "world:import-func" } else { "world:export-func" });
                             let sig = self.func_sig(&sc);
                             body.push_str(&format!("  {dir} {f}: {sig};\n"));
                         }
                         _ => {
-                            let f = self.fresh("inl");
-                            names.push(f.clone());
+                            let f = self.item_name("inl", dir, &mut imp_names, &mut exp_names, &mut names);
                             self.feat(if dir == "import" { "world:import-inline" } else { "world:export-inline" });
                             let mut isc = Scope::default();
                             let mut ib = String::new();
@@ -461,8 +621,11 @@ impl<'a> Gen<'a> {
                     }
                 }
             }
+            // the name carries the tag of a shape that is a known finding (see `include_renames`)
+            let wname = self.fresh(wprefix);
             let text = format!("world {wname} {{\n{body}}}\n");
-            pkg.worlds.push(GenWorld { name: wname, text, names });
+            let decl_res_funcs = std::mem::take(&mut self.res_with_funcs);
+            pkg.worlds.push(GenWorld { name: wname, text, names, used_types, decl_types, decl_res_funcs });
         }
         pkg.features = std::mem::take(&mut self.features);
         pkg
@@ -574,11 +737,13 @@ struct Decls {
     /// "import" for component-level scopes, "export" in instance types
     binder: &'static str,
     ind: String,
+    /// core types declared in this scope (their own index space)
+    core_types: u32,
 }
 
 impl Decls {
     fn new(binder: &'static str, ind: &str) -> Decls {
-        Decls { text: String::new(), types: 0, named_vals: vec![], resources: vec![], names: 0, binder, ind: ind.to_string() }
+        Decls { text: String::new(), types: 0, named_vals: vec![], resources: vec![], names: 0, binder, ind: ind.to_string(), core_types: 0 }
     }
     fn name(&mut self, p: &str) -> String {
         self.names += 1;
@@ -672,6 +837,16 @@ impl Decls {
         }
         self.resources.push(j);
     }
+    /// declare a core module type and bind a module of that type (import or export of the scope)
+    fn module(&mut self, r: &mut Rng, feats: &mut Vec<&'static str>) {
+        let mt = core_module_type(r, feats);
+        self.line(&mt);
+        let n = self.name("m");
+        let b = self.binder;
+        let c = self.core_types;
+        self.core_types += 1;
+        self.line(&format!("({b} \"{n}\" (core module (type {c})))"));
+    }
     fn func_type(&mut self, r: &mut Rng) -> String {
         let n = r.below(3);
         let mut ps = vec![];
@@ -685,14 +860,87 @@ impl Decls {
     }
 }
 
-fn core_module_type(r: &mut Rng) -> String {
+/// abstract heap types of the reference types a core module type may mention
+const CORE_HEAPS: &[&str] = &["func", "extern", "any", "eq", "i31", "struct", "array", "none", "nofunc", "noextern", "exn", "noexn"];
+/// the nullable shorthands
+const CORE_REF_SHORT: &[&str] = &[
+    "funcref", "externref", "anyref", "eqref", "i31ref", "structref", "arrayref", "nullref", "nullfuncref", "nullexternref", "exnref",
+    "nullexnref",
+];
+
+/// A core reference type: nullable and non-nullable, the two MVP heap types (`func`, `extern`;
+/// half of the draws, both spellings of the nullable form) and the other abstract heap types.
+/// At a low rate a reference to one of the function types declared so far (`(ref $t)`): the
+/// converter reports concrete heap types as unsupported (the whole package then), it must not panic.
+fn core_reftype(r: &mut Rng, ntypes: u32, feats: &mut Vec<&'static str>) -> String {
+    if ntypes > 0 && r.chance(1, 12) {
+        feats.push("core:ref-concrete");
+        let i = r.below(ntypes as usize);
+        return if r.chance(1, 2) { format!("(ref {i})") } else { format!("(ref null {i})") };
+    }
+    let mvp = r.chance(1, 2);
+    let k = if mvp { r.below(2) } else { r.below(CORE_HEAPS.len()) };
+    let nullable = r.chance(1, 2);
+    feats.push(match (mvp, nullable) {
+        (true, true) => "core:ref-null-func/extern",
+        (true, false) => "core:ref-nonnull-func/extern",
+        (false, true) => "core:ref-null-other",
+        (false, false) => "core:ref-nonnull-other",
+    });
+    if !nullable {
+        format!("(ref {})", CORE_HEAPS[k])
+    } else if r.chance(1, 2) {
+        CORE_REF_SHORT[k].to_string()
+    } else {
+        format!("(ref null {})", CORE_HEAPS[k])
+    }
+}
+
+fn core_valtype(r: &mut Rng, ntypes: u32, feats: &mut Vec<&'static str>) -> String {
+    if r.chance(1, 2) {
+        ["i32", "i64", "f32", "f64", "v128"][r.below(5)].to_string()
+    } else {
+        core_reftype(r, ntypes, feats)
+    }
+}
+
+/// `(func (param …) (result …))` over numeric, vector and reference types
+fn core_functype(r: &mut Rng, ntypes: u32, feats: &mut Vec<&'static str>) -> String {
+    let np = r.below(3);
+    let nr = r.below(3);
+    let ps: Vec<String> = (0..np).map(|_| core_valtype(r, ntypes, feats)).collect();
+    let rs: Vec<String> = (0..nr).map(|_| core_valtype(r, ntypes, feats)).collect();
+    let mut s = String::from("(func");
+    if !ps.is_empty() {
+        s.push_str(&format!(" (param {})", ps.join(" ")));
+    }
+    if !rs.is_empty() {
+        s.push_str(&format!(" (result {})", rs.join(" ")));
+    }
+    s.push(')');
+    s
+}
+
+fn core_globaltype(r: &mut Rng, ntypes: u32, feats: &mut Vec<&'static str>) -> String {
+    let v = core_valtype(r, ntypes, feats);
+    if r.chance(1, 3) {
+        format!("(mut {v})")
+    } else {
+        v
+    }
+}
+
+/// A core module type: imports and exports of functions, memories, tables, globals and tags;
+/// reference types (see `core_reftype`) occur in function parameters/results, global contents,
+/// table element types and tag parameters, on the import and on the export side.
+fn core_module_type(r: &mut Rng, feats: &mut Vec<&'static str>) -> String {
     let mut s = String::from("(core type (module");
-    let mut types = 0;
+    let mut types = 0u32;
     let n = r.below(4);
     for i in 0..n {
         match r.below(5) {
             0 => {
-                s.push_str(&format!(" (type (func (param i32 {}) (result {})))", ["i64", "f32", "f64", "v128"][r.below(4)], ["i32", "i64", "funcref", "externref"][r.below(4)]));
+                s.push_str(&format!(" (type {})", core_functype(r, types, feats)));
                 s.push_str(&format!(" (import \"m{i}\" \"f{i}\" (func (type {types})))"));
                 types += 1;
             }
@@ -702,26 +950,38 @@ fn core_module_type(r: &mut Rng) -> String {
                 r.below(4),
                 4 + r.below(4)
             )),
-            2 => s.push_str(&format!(" (import \"m\" \"tab{i}\" (table {} {} {}))", r.below(3), 3 + r.below(3), ["funcref", "externref"][r.below(2)])),
-            3 => s.push_str(&format!(" (import \"m\" \"g{i}\" (global {}))", ["i32", "(mut i64)", "f32", "(mut externref)"][r.below(4)])),
+            2 => s.push_str(&format!(" (import \"m\" \"tab{i}\" (table {} {} {}))", r.below(3), 3 + r.below(3), core_reftype(r, types, feats))),
+            3 => s.push_str(&format!(" (import \"m\" \"g{i}\" (global {}))", core_globaltype(r, types, feats))),
             _ => {
-                s.push_str(" (type (func (param i32)))");
+                let np = r.below(3);
+                let ps: Vec<String> = (0..np).map(|_| core_valtype(r, types, feats)).collect();
+                s.push_str(&format!(" (type (func (param i32 {})))", ps.join(" ")));
                 s.push_str(&format!(" (import \"m\" \"tag{i}\" (tag (type {types})))"));
                 types += 1;
             }
         }
     }
-    let n = r.below(4);
+    let n = r.below(5);
     for i in 0..n {
-        match r.below(4) {
+        match r.below(5) {
             0 => {
-                s.push_str(" (type (func (result i32 i64)))");
+                s.push_str(&format!(" (type {})", core_functype(r, types, feats)));
                 s.push_str(&format!(" (export \"f{i}\" (func (type {types})))"));
                 types += 1;
             }
             1 => s.push_str(&format!(" (export \"mem{i}\" (memory {} {} shared))", r.below(3), 3 + r.below(3))),
-            2 => s.push_str(&format!(" (export \"tab{i}\" (table {} funcref))", r.below(3))),
-            _ => s.push_str(&format!(" (export \"g{i}\" (global {}))", ["i32", "(mut f64)", "v128"][r.below(3)])),
+            2 => {
+                let max = if r.chance(1, 2) { format!(" {}", 3 + r.below(3)) } else { String::new() };
+                s.push_str(&format!(" (export \"tab{i}\" (table {}{max} {}))", r.below(3), core_reftype(r, types, feats)))
+            }
+            3 => {
+                let np = r.below(2);
+                let ps: Vec<String> = (0..np).map(|_| core_valtype(r, types, feats)).collect();
+                s.push_str(&format!(" (type (func (param {})))", ps.join(" ")));
+                s.push_str(&format!(" (export \"tag{i}\" (tag (type {types})))"));
+                types += 1;
+            }
+            _ => s.push_str(&format!(" (export \"g{i}\" (global {}))", core_globaltype(r, types, feats))),
         }
     }
     s.push_str("))");
@@ -729,14 +989,18 @@ fn core_module_type(r: &mut Rng) -> String {
 }
 
 /// the body of an instance type: named types, resources, functions, optionally a nested instance
-fn instance_type_body(r: &mut Rng, depth: usize, ind: &str) -> String {
+fn instance_type_body(r: &mut Rng, depth: usize, ind: &str, feats: &mut Vec<&'static str>) -> String {
     let mut d = Decls::new("export", ind);
     let n = r.below(5);
     for _ in 0..n {
-        match r.below(5) {
-            0 => d.named_val(r),
-            1 => d.resource(r),
-            2 | 3 => {
+        match r.below(11) {
+            10 => {
+                feats.push("wat:module-in-instance-type");
+                d.module(r, feats);
+            }
+            0 | 5 => d.named_val(r),
+            1 | 6 => d.resource(r),
+            2 | 3 | 7 | 8 => {
                 let ft = d.func_type(r);
                 let n = d.name("f");
                 d.line(&format!("(export \"{n}\" {ft})"));
@@ -744,7 +1008,7 @@ fn instance_type_body(r: &mut Rng, depth: usize, ind: &str) -> String {
             }
             _ => {
                 if depth > 0 {
-                    let inner = instance_type_body(r, depth - 1, &format!("{ind}  "));
+                    let inner = instance_type_body(r, depth - 1, &format!("{ind}  "), feats);
                     let n = d.name("i");
                     d.line(&format!("(export \"{n}\" (instance\n{inner}{ind}))"));
                     d.types += 1; // the inline instance type
@@ -755,22 +1019,26 @@ fn instance_type_body(r: &mut Rng, depth: usize, ind: &str) -> String {
     d.text
 }
 
-fn component_type_body(r: &mut Rng, depth: usize, ind: &str) -> String {
+fn component_type_body(r: &mut Rng, depth: usize, ind: &str, feats: &mut Vec<&'static str>) -> String {
     let mut s = String::new();
     let mut d = Decls::new("import", ind);
     let n = r.below(4);
     for _ in 0..n {
-        match r.below(5) {
-            0 => d.named_val(r),
-            1 => d.resource(r),
-            2 => {
+        match r.below(11) {
+            10 => {
+                feats.push("wat:module-in-component-type");
+                d.module(r, feats);
+            }
+            0 | 5 => d.named_val(r),
+            1 | 6 => d.resource(r),
+            2 | 7 => {
                 let ft = d.func_type(r);
                 let n = d.name("f");
                 d.line(&format!("(import \"{n}\" {ft})"));
                 d.types += 1;
             }
-            3 => {
-                let inner = instance_type_body(r, depth.saturating_sub(1), &format!("{ind}  "));
+            3 | 8 => {
+                let inner = instance_type_body(r, depth.saturating_sub(1), &format!("{ind}  "), feats);
                 let n = d.name("i");
                 d.line(&format!("(import \"{n}\" (instance\n{inner}{ind}))"));
                 d.types += 1;
@@ -784,15 +1052,19 @@ fn component_type_body(r: &mut Rng, depth: usize, ind: &str) -> String {
     let n = r.below(3);
     d.binder = "export";
     for _ in 0..n {
-        match r.below(3) {
-            0 => {
+        match r.below(7) {
+            6 => {
+                feats.push("wat:module-in-component-type");
+                d.module(r, feats);
+            }
+            0 | 3 => {
                 let ft = d.func_type(r);
                 let n = d.name("xf");
                 d.line(&format!("(export \"{n}\" {ft})"));
                 d.types += 1;
             }
-            1 => {
-                let inner = instance_type_body(r, depth.saturating_sub(1), &format!("{ind}  "));
+            1 | 4 => {
+                let inner = instance_type_body(r, depth.saturating_sub(1), &format!("{ind}  "), feats);
                 let n = d.name("xi");
                 d.line(&format!("(export \"{n}\" (instance\n{inner}{ind}))"));
                 d.types += 1;
@@ -809,7 +1081,6 @@ fn component_type_body(r: &mut Rng, depth: usize, ind: &str) -> String {
 pub fn gen_shaped_wat(r: &mut Rng) -> (String, Vec<&'static str>) {
     let mut feats = vec![];
     let mut d = Decls::new("import", "  ");
-    let mut core_types = 0u32;
     let mut funcs: Vec<String> = vec![];
     let mut n_funcs = 0u32;
     let mut n_instances = 0u32;
@@ -821,7 +1092,7 @@ pub fn gen_shaped_wat(r: &mut Rng) -> (String, Vec<&'static str>) {
     let n = 1 + r.below(6);
     let mut used = 0u32;
     for _ in 0..n {
-        match r.below(10) {
+        match r.below(11) {
             0 => {
                 feats.push("wat:type-import");
                 d.named_val(r);
@@ -852,7 +1123,7 @@ pub fn gen_shaped_wat(r: &mut Rng) -> (String, Vec<&'static str>) {
             }
             4 => {
                 feats.push("wat:instance-import");
-                let inner = instance_type_body(r, 2, "    ");
+                let inner = instance_type_body(r, 2, "    ", &mut feats);
                 let n = if r.chance(1, 2) { format!("a:b/i{}", d.names + 1) } else { d.name("i") };
                 d.names += 1;
                 d.line(&format!("(import \"{n}\" (instance\n{inner}  ))"));
@@ -866,7 +1137,7 @@ pub fn gen_shaped_wat(r: &mut Rng) -> (String, Vec<&'static str>) {
             }
             5 => {
                 feats.push("wat:component-import");
-                let inner = component_type_body(r, 2, "    ");
+                let inner = component_type_body(r, 2, "    ", &mut feats);
                 let n = d.name("c");
                 d.line(&format!("(import \"{n}\" (component\n{inner}  ))"));
                 d.types += 1;
@@ -877,13 +1148,9 @@ pub fn gen_shaped_wat(r: &mut Rng) -> (String, Vec<&'static str>) {
                 }
                 n_components += 1;
             }
-            6 => {
+            6 | 10 => {
                 feats.push("wat:module-import");
-                let mt = core_module_type(r);
-                d.line(&mt);
-                let n = d.name("m");
-                d.line(&format!("(import \"{n}\" (core module (type {core_types})))"));
-                core_types += 1;
+                d.module(r, &mut feats);
                 if r.chance(1, 3) {
                     xn += 1;
                     exports.push_str(&format!("  (export \"xm{xn}\" (core module {n_modules}))\n"));
@@ -965,10 +1232,10 @@ pub fn gen_shaped_wat(r: &mut Rng) -> (String, Vec<&'static str>) {
                 let i = d.types;
                 d.types += 1;
                 if r.chance(1, 2) {
-                    let inner = instance_type_body(r, 1, "    ");
+                    let inner = instance_type_body(r, 1, "    ", &mut feats);
                     d.line(&format!("(type (;{i};) (instance\n{inner}  ))"));
                 } else {
-                    let inner = component_type_body(r, 1, "    ");
+                    let inner = component_type_body(r, 1, "    ", &mut feats);
                     d.line(&format!("(type (;{i};) (component\n{inner}  ))"));
                 }
                 let n = d.name("ty");
